@@ -563,6 +563,8 @@ inductive Query where
   | nullDatum (i j : UInt32)
   | tappath (i : UInt8)
   | totalFee (id : B32)
+  /-- the `issuance` jet: whether input `i` has an issuance, and whether it is a reissuance -/
+  | issuance (i : UInt32)
   /-- `check_lock_*` with the number read from the input frame -/
   | checkLock (k : LockKind) (x : Nat)
 
@@ -650,6 +652,10 @@ def jet0 (g : G0) (v : TxEnv) : List Bool :=
   | .txLockDistance => natBits 16 (lockDistanceOf v.tx)
   | .txLockDuration => natBits 16 (lockDurationOf v.tx)
 
+/-- what the `issuance` jet writes for an existing input: `NO_ISSUANCE != type`, then `REISSUANCE == type` -/
+def issuanceW (s : SigInput) : List Bool :=
+  if s.issuance.type ≠ .none then [true, decide (s.issuance.type = .reissuance)] else [false]
+
 /-- the value a jet writes (compact bits), `none` = the jet returns false -/
 def jetC (q : Query) (v : TxEnv) : Option (List Bool) :=
   match q with
@@ -663,6 +669,7 @@ def jetC (q : Query) (v : TxEnv) : Option (List Bool) :=
   | .tappath i => some (optBits ((v.taproot.path[i.toNat]?).map bytesBits))
   | .totalFee id => some (natBits 64 (v.tx.fee id.bytes))
   | .checkLock k x => if x ≤ lockOf k v.tx then some [] else none
+  | .issuance i => some (optBits ((v.tx.inputs[i.toNat]?).map issuanceW))
 
 /-! ### the specification: what each getter has to return, from the supplied data alone -/
 
@@ -783,6 +790,10 @@ def spec0 (g : G0) (e : EnvArgs) : List Bool :=
   | .txLockDistance => natBits 16 (specRelLock false e)
   | .txLockDuration => natBits 16 (specRelLock true e)
 
+/-- no issuance: left; a new issuance: right(false); a reissuance: right(true) -/
+def specIssuance (i : TxIn) : List Bool :=
+  optBits (match i.issKind with | .none => none | .new => some [false] | .reissuance => some [true])
+
 def spec (q : Query) (e : EnvArgs) : Option (List Bool) :=
   match q with
   | .nullary g => some (spec0 g e)
@@ -795,5 +806,6 @@ def spec (q : Query) (e : EnvArgs) : Option (List Bool) :=
   | .tappath i => some (optBits ((e.controlBlock.merkleBranch[i.toNat]?).map fun h => bytesBits h.bytes))
   | .totalFee id => some (natBits 64 (specFee e.tx.outputs id))
   | .checkLock k x => if x ≤ specLock k e then some [] else none
+  | .issuance i => some (optBits ((e.shown[i.toNat]?).map fun p => specIssuance p.1))
 
 end Env
